@@ -222,7 +222,7 @@ def tab_lit(spec):
             f"{mk} {zl(len(spec['P'][0]))} {sp_lit(spec['asp'])} {sp_lit(spec['osp'])})")
 
 
-def random_tab(rng, *, box_action=None, box_obs=None, mask=None, nS=None, trunc_rate=0.1, term_rate=0.2, noise=True):
+def random_tab(rng, *, box_action=None, box_obs=None, mask=None, nS=None, trunc_rate=0.1, term_rate=0.2, noise=True, half_bounded=False):
     S = int(nS or rng.integers(2, 7))
     A = int(rng.integers(2, 5))
     K = int(rng.integers(1, 4))
@@ -249,9 +249,9 @@ def random_tab(rng, *, box_action=None, box_obs=None, mask=None, nS=None, trunc_
         spec["asp"] = ["box", bool(rng.random() < 0.3), lo, lo + width]
         # a fifth of the Box action spaces have ONE finite bound only (e.g. [0, inf)): clipping must still apply to that bound
         r = rng.random()
-        if r < 0.1:
+        if half_bounded and r < 0.1:
             spec["asp"][3] = None
-        elif r < 0.2:
+        elif half_bounded and r < 0.2:
             spec["asp"][2] = None
     else:
         spec["asp"] = ["disc", A]
